@@ -1,16 +1,16 @@
-\* scenario: A adds x and y; B (saw both) removes x and then y with the context of read() (the SAME clock);
-\* then free exploration with 3 replicas: the removes overtake the adds at C, meet through merges, ...
+\* scenario: replica 4 (clock over four actors) holds two pending removes with nested contexts {A:2} -> {x}, {A:2,B:1} -> {y};
+\* then every FIFO delivery and every merge among the four replicas (no further edits)
 CONSTANTS
-  NReps = 3
-  NMembers = 2
-  MaxOps = 5
+  NReps = 4
+  NMembers = 3
+  MaxOps = 7
   Regime = "fifo"
   UseMerge = TRUE
   UseSnap = FALSE
   UseDup = FALSE
   DumpReset = FALSE
-  CmdSet = {"add", "rm", "rmall"}
-  ScriptName = "same_ctx_removes"
+  CmdSet = {"add"}
+  ScriptName = "nested_pending_four_actors"
   Reps <- MCReps
   Actors <- MCActors
   Members <- MCMembers
